@@ -20,8 +20,15 @@ def monitor(case):
     """Property C12 on what the real driver did; None or a description.
     Sound: flags only behaviour the property forbids."""
     if case.get('hung'):
+        ql = {}
+        for ev in case.get('log', []):
+            if ev['e'] == 'q':
+                ql[ev['q']] = ev['n']
+        left = {q: n for q, n in sorted(ql.items()) if n}
+        why = ('although every queue is empty' if not left else
+               'commands left in queue(s) %s are never looked at again' % left)
         return ('DrainCommandQueue never returns: after %d granted steps every goroutine is blocked and an '
-                'application thread has not finished its calls' % len(case.get('steps', [])))
+                'application thread has not finished its calls, %s' % (len(case.get('steps', [])), why))
     pending = collections.defaultdict(list)      # queue -> ids in submission order, not yet completed
     mine = collections.defaultdict(list)         # (thread, queue) -> ids submitted
     for ev in case.get('log', []):
@@ -111,8 +118,8 @@ def main(argv):
                    'Context.buffers, Driver.codeObjGPUAddrs, Driver.requestsToSend) are not expressible']
     rep.assumptions = ['threads interleave at the granularity of the named yield points (sequential consistency)',
                        'every thread that enqueues later calls DrainCommandQueue (the API wakes the driver only there)',
-                       'asynchronous commands: the GPU side answers every request through an engine event (model only; '
-                       'the harness exercises NoopCommands on a driver without GPUs)',
+                       'asynchronous commands: the GPU side answers every request through an engine event (the harness plays '
+                       'such a GPU for LaunchKernelCommands; memory-copy middleware paths are model-only)',
                        'Driver.Terminate is not called while calls are in flight']
     thorough = vlib.tier() == 'thorough'
     n = 1500 if thorough else 130
